@@ -176,7 +176,7 @@ func runC21x(c c21Case, st *vstat.Stats) *vstat.Failure {
 			if c.Keyed {
 				line = key + " " + line
 			}
-			v.ProcessLogLine(nil, hx.Line("f", line))
+			hx.Run(v, "f", line)
 		default:
 			var d datum.Datum
 			var err error
